@@ -97,6 +97,11 @@ class ConnectionState:
                               [b'AUTH=%b' % mech.name for mech in
                                self.auth.server_mechanisms])
 
+    def do_disconnect(self) -> None:
+        """The connection is over: its selected mailbox, if any, must no
+        longer be considered selected by anyone."""
+        self._deselect()
+
     async def do_cleanup(self) -> None:
         with suppress(Exception):
             await self.session.cleanup()
